@@ -195,6 +195,60 @@ fn update_consistent(c: &Ctx, psbt: &Psbt, i: usize) -> Value {
     json!({"present": present, "commit_ok": ok, "origins_ok": origins_ok})
 }
 
+/// update_output_with_descriptor on an output that pays to descriptor i: what it records must
+/// commit to that output; a descriptor with another scriptPubKey must be refused
+fn output_update_obs(c: &Ctx, i: usize) -> Value {
+    let r = catch_unwind(AssertUnwindSafe(|| -> Value {
+        let tx = Transaction {
+            version: transaction::Version(2),
+            lock_time: absolute::LockTime::ZERO,
+            input: vec![TxIn { previous_output: OutPoint { txid: Txid::from_byte_array([5u8; 32]), vout: 0 }, script_sig: ScriptBuf::new(),
+                               sequence: Sequence::MAX, witness: Witness::new() }],
+            output: vec![TxOut { value: Amount::from_sat(40_000), script_pubkey: c.descs[i].script_pubkey() }],
+        };
+        let mut psbt = Psbt::from_unsigned_tx(tx).unwrap();
+        let st = psbt.update_output_with_descriptor(0, &c.descs[i]).is_ok();
+        let out = &psbt.outputs[0];
+        let spk = c.descs[i].script_pubkey();
+        let b = spk.as_bytes();
+        let mut ok = true;
+        if let Some(ws) = &out.witness_script {
+            let h = sha256::Hash::hash(ws.as_bytes()).to_byte_array();
+            if b.len() == 34 && b[0] == 0 {
+                ok &= h[..] == b[2..34];
+            } else if let Some(rs) = &out.redeem_script {
+                ok &= rs.as_bytes().len() == 34 && rs.as_bytes()[2..34] == h[..];
+            } else {
+                ok = false;
+            }
+        }
+        if let Some(rs) = &out.redeem_script {
+            let h = hash160::Hash::hash(rs.as_bytes()).to_byte_array();
+            ok &= b.len() == 23 && h[..] == b[2..22];
+        }
+        if let Some(ik) = out.tap_internal_key {
+            let root = out.tap_tree.as_ref().map(|t| t.root_hash());
+            let tw = bitcoin::key::TapTweak::tap_tweak(ik, &c.u.secp, root);
+            #[allow(deprecated)]
+            {
+                ok &= b.len() == 34 && tw.0.to_inner().serialize()[..] == b[2..34];
+            }
+        }
+        // another descriptor (different scriptPubKey) must be refused and must not record anything
+        let mut others = vec![];
+        for j in 0..c.descs.len() {
+            if c.descs[j].script_pubkey() != spk {
+                let mut p2 = Psbt::from_unsigned_tx(psbt.unsigned_tx.clone()).unwrap();
+                let r2 = p2.update_output_with_descriptor(0, &c.descs[j]).is_ok();
+                let untouched = p2.outputs[0] == bitcoin::psbt::Output::default();
+                others.push(json!({"accepted": r2, "untouched": untouched}));
+            }
+        }
+        json!({"st": if st { "ok" } else { "err" }, "commit_ok": ok, "others": others})
+    }));
+    r.unwrap_or(json!({"st": "panic", "commit_ok": false, "others": []}))
+}
+
 fn project(c: &Ctx, psbt: &Psbt) -> Value {
     let mut out = vec![];
     for i in 0..c.descs.len() {
@@ -282,7 +336,8 @@ pub fn run_case(u: &Universe, case: &Value) -> Vec<Value> {
     let cid = format!("{}", case["id"]);
     let descr: Vec<Value> = case["inputs"].as_array().unwrap().iter().map(|d| json!({"ctx": d["ctx"], "wrap": d["wrap"], "ast": d["ast"], "abs": ast_to_abs(&d["ast"])})).collect();
     evs.push(json!({"id": format!("{}:0", cid), "ev": "psbt", "op": "reset", "i": 0, "k": 0, "h": ["", 0], "mall": false, "res": "ok",
-                    "inputs": descr, "env": env, "state": project(&c, &psbt), "extract": []}));
+                    "inputs": descr, "env": env, "state": project(&c, &psbt), "extract": [],
+                    "outs": (0..c.descs.len()).map(|i| output_update_obs(&c, i)).collect::<Vec<_>>()}));
     for (n, op) in case["ops"].as_array().unwrap().iter().enumerate() {
         let name = op["op"].as_str().unwrap();
         let i = op["i"].as_u64().unwrap_or(1) as usize;
